@@ -8,10 +8,11 @@ import proofs
 import gen_tensors as G
 from common import hx
 
-FILES = ["gen/Gen_tensors.v", "Model_voigt.v", "Proofs_tensors_alg.v"] + \
+FILES = ["gen/Gen_tensors.v", "gen/Gen_voigt.v", "Model_voigt.v", "Proofs_tensors_alg.v"] + \
         [f"Proofs_tensors_rot{i}.v" for i in range(9)] + \
-        ["Proofs_tensors_rot.v", "Proofs_tensors_maps.v", "Proofs_tensors_proj.v", "Inst_tensors.v", "Proofs_voigt.v",
-         "Model_decomp.v", "Proofs_decomp.v", "Proofs_voigt2.v", "Proofs_voigt3.v", "Entry_tensors.v", "Extract_tensors.v"]
+        ["Proofs_tensors_rot.v", "Proofs_tensors_maps.v", "Proofs_tensors_proj.v", "Inst_tensors.v", "Inst_voigt.v",
+         "Inst_voigt_a0.v", "Inst_voigt_a1.v", "Inst_voigt_a01.v", "Inst_voigt_a10.v", "Proofs_voigt.v",
+         "Model_decomp.v", "Proofs_decomp.v", "Proofs_voigt2.v", "Proofs_voigt3.v", "Proofs_voigt_gen.v", "Entry_tensors.v", "Extract_tensors.v"]
 PROP = "Properties/C10.v"
 
 OL, EN = 0, 1
@@ -71,24 +72,48 @@ def model_line(c):
     return common.model_line("voigt", ints, np.concatenate(fl))
 
 
+def _present(a, kind):
+    return np.array(a) if kind in (None, "float64") else G.present(a, kind)
+
+
 def build(c):
+    """pydrex objects of the plain-data case `c`; `c["pres"]` (optional) hands the SAME numbers over in another
+    dtype / memory layout / container: keys tensors, orientations, fractions (a G.PRES_KINDS kind each),
+    phis ('list' | 'tuple' | 'array' | 'float32' | 'int'), minerals / assemblage ('list' | 'tuple')"""
     import logging
     import pydrex.core as core
     import pydrex.minerals as M
     import pydrex.logger as L
     L.CONSOLE_LOGGER.setLevel(logging.ERROR)
+    pres = c.get("pres") or {}
     ms = []
     for m in c["minerals"]:
         ph = core.MineralPhase(m["phase"])
         fab = core.MineralFabric.olivine_A if m["phase"] == OL else core.MineralFabric.enstatite_AB
         mm = M.Mineral(phase=ph, fabric=fab, regime=core.DeformationRegime.matrix_dislocation, n_grains=4)
         mm.n_grains = m["n_grains"]
-        mm.orientations = [np.array(o) for o in m["orientations"]]
-        mm.fractions = [np.array(f) for f in m["fractions"]]
+        mm.orientations = [_present(o, pres.get("orientations")) for o in m["orientations"]]
+        mm.fractions = [_present(f, pres.get("fractions")) for f in m["fractions"]]
         ms.append(mm)
     asm = [core.MineralPhase(p) for p in c["assemblage"]]
     st = M.StiffnessTensors(olivine=np.array(c["tensors"][0]), enstatite=np.array(c["tensors"][1]))
-    return ms, asm, [float(x) for x in c["phis"]], st
+    if pres.get("tensors"):
+        st.olivine, st.enstatite = _present(c["tensors"][0], pres["tensors"]), _present(c["tensors"][1], pres["tensors"])
+    pk = pres.get("phis", "list")
+    phis = [float(x) for x in c["phis"]]
+    if pk == "tuple":
+        phis = tuple(phis)
+    elif pk == "array":
+        phis = np.array(phis)
+    elif pk == "float32":
+        phis = [np.float32(x) for x in phis]
+    elif pk == "int":
+        phis = [int(x) for x in phis]
+    if pres.get("minerals") == "tuple":
+        ms = tuple(ms)
+    if pres.get("assemblage") == "tuple":
+        asm = tuple(asm)
+    return ms, asm, phis, st
 
 
 def impl(c):
@@ -103,6 +128,7 @@ def impl(c):
 def encode(c):
     return {"assemblage": c["assemblage"], "phis": [hx(x) for x in c["phis"]],
             "tensors": [[hx(x) for x in t.reshape(-1)] for t in c["tensors"]], "kind": c.get("kind", ""),
+            "pres": c.get("pres"),
             "minerals": [{"phase": m["phase"], "n_grains": m["n_grains"],
                           "orientations": [[hx(x) for x in o.reshape(-1)] for o in m["orientations"]],
                           "fractions": [[hx(x) for x in f] for f in m["fractions"]]} for m in c["minerals"]]}
@@ -112,6 +138,7 @@ def decode(d):
     u = common.unhx
     return dict(assemblage=d["assemblage"], phis=np.array([u(x) for x in d["phis"]]),
                 tensors=[np.array([u(x) for x in t]).reshape(6, 6) for t in d["tensors"]], kind=d.get("kind", ""),
+                pres=d.get("pres"),
                 minerals=[dict(phase=m["phase"], n_grains=m["n_grains"],
                                orientations=[np.array([u(x) for x in o]).reshape(-1, 3, 3) for o in m["orientations"]],
                                fractions=[np.array([u(x) for x in f]) for f in m["fractions"]]) for m in d["minerals"]])
@@ -131,10 +158,12 @@ def oracle(c):
     if r[0] == "ERR":
         return [f"voigt_averages raised {r[1]}: {r[2]}"]
     avg = r[1]
+    pres = c.get("pres") or {}
+    tol = 1e-5 if "float32" in pres.values() else 1e-9      # float32 operands: part of the arithmetic runs in binary32
     sc = max(1.0, float(np.abs(avg).max()))
     asm, phis = c["assemblage"], np.asarray(c["phis"])
     nsteps = len(c["minerals"][0]["orientations"])
-    if np.abs(avg - avg.transpose(0, 2, 1)).max() > 1e-9 * sc:
+    if np.abs(avg - avg.transpose(0, 2, 1)).max() > tol * sc:
         f.append("a Voigt average is not symmetric")
     C4 = [T.voigt_to_elastic_tensor(np.array(t)) for t in c["tensors"]]
     ref = np.zeros((nsteps, 6, 6))
@@ -144,25 +173,27 @@ def oracle(c):
             w = m["fractions"][i] * phis[asm.index(m["phase"])]
             rot = np.einsum("nai,nbj,nck,ndl,abcd->nijkl", A, A, A, A, C4[m["phase"]])   # rotate(C, A^T)
             ref[i] += T.elastic_tensor_to_voigt(np.einsum("n,nijkl->ijkl", w, rot))
-    if np.abs(avg - ref).max() > 1e-9 * sc:
+    if np.abs(avg - ref).max() > tol * sc:
         f.append("Voigt average differs from the volume-weighted sum of the rotated single-crystal tensors of each grain's own phase")
     # texture-independent moduli (one mineral per phase, weights sum to one)
-    if sorted(m["phase"] for m in c["minerals"]) == sorted(asm):
+    unit = all(abs(float(np.sum(f)) - 1.0) < 1e-9 for m in c["minerals"] for f in m["fractions"])   # the clause's own hypothesis
+    if unit and sorted(m["phase"] for m in c["minerals"]) == sorted(asm):
         Kx = sum(phis[asm.index(p)] * KG(np.array(c["tensors"][p]))[0] for p in asm)
         Gx = sum(phis[asm.index(p)] * KG(np.array(c["tensors"][p]))[1] for p in asm)
         for i in range(nsteps):
             K, G_ = KG(avg[i])
-            if abs(K - Kx) > 1e-9 * sc or abs(G_ - Gx) > 1e-9 * sc:
+            if abs(K - Kx) > tol * sc or abs(G_ - Gx) > tol * sc:
                 f.append(f"bulk/shear moduli of the average ({K:.6f}, {G_:.6f}) differ from the phase-weighted single-crystal Voigt moduli ({Kx:.6f}, {Gx:.6f})")
                 break
     # co-rotation with the reference frame: A -> A.Q^T
     Q = G.haar(np.random.default_rng(7))
-    c2 = dict(c, minerals=[dict(m, orientations=[o @ Q.T for o in m["orientations"]]) for m in c["minerals"]])
+    c2 = dict(c, minerals=[dict(m, orientations=[o @ Q.T for o in m["orientations"]]) for m in c["minerals"]],
+              pres={k: v for k, v in pres.items() if k != "orientations"})     # the rotated numbers are float64 numbers
     r2 = impl(c2)
     if r2[0] == "OK":
         for i in range(nsteps):
             want = T.elastic_tensor_to_voigt(T.rotate(T.voigt_to_elastic_tensor(avg[i].copy()), Q.copy()))
-            if np.abs(r2[1][i] - want).max() > 1e-8 * sc:
+            if np.abs(r2[1][i] - want).max() > 10 * tol * sc:
                 f.append("Voigt average does not co-rotate with the reference frame")
                 break
     else:
@@ -170,18 +201,18 @@ def oracle(c):
     # order independence
     c3 = dict(c, minerals=list(reversed(c["minerals"])))
     r3 = impl(c3)
-    if r3[0] != "OK" or np.abs(r3[1] - avg).max() > 1e-9 * sc:
+    if r3[0] != "OK" or np.abs(r3[1] - avg).max() > tol * sc:
         f.append("result depends on the order of the mineral list")
     c4 = dict(c, assemblage=list(reversed(asm)), phis=phis[::-1])
     r4 = impl(c4)
-    if r4[0] != "OK" or np.abs(r4[1] - avg).max() > 1e-9 * sc:
+    if r4[0] != "OK" or np.abs(r4[1] - avg).max() > tol * sc:
         f.append("result depends on the order in which the phases are listed")
     # one aligned grain
     p = c["minerals"][0]["phase"]
     one = dict(assemblage=[p], phis=np.array([1.0]), tensors=c["tensors"],
                minerals=[dict(phase=p, n_grains=1, orientations=[np.eye(3)[None]], fractions=[np.array([1.0])])])
     r5 = impl(one)
-    if r5[0] != "OK" or np.abs(r5[1][0] - np.array(c["tensors"][p])).max() > 1e-9 * sc:
+    if r5[0] != "OK" or np.abs(r5[1][0] - np.array(c["tensors"][p])).max() > tol * sc:
         f.append("one aligned grain does not return the single-crystal tensor of its phase")
     return f
 
@@ -359,7 +390,23 @@ def fails_of(c):
     k = c.get("kind", "valid")
     if k == "stateful":
         return oracle_seq(c)
+    if k.startswith("presentation:"):
+        # the property read on another presentation of the same numbers; a presentation numba / NumPy has no
+        # typing for may be refused loudly
+        kind = k.split(":")[2]
+        try:
+            build_and_call(c)
+        except Exception as e:  # noqa: BLE001
+            if type(e).__name__ in G.REFUSAL and (kind in G.PRES_INTEGER or kind in ("list", "int")):
+                return []
+        return oracle(c)
     return oracle(c) if k == "valid" else oracle_rejects(c)
+
+
+def build_and_call(c):
+    import pydrex.minerals as M
+    ms, asm, phis, st = build(c)
+    return M.voigt_averages(ms, asm, phis, st)
 
 
 def gen_seqs(chk, tier):
@@ -404,6 +451,108 @@ def compare_seqs(chk, seqs):
 KINDS = ["valid"] * 8 + ["bad_ngrains", "bad_osteps", "bad_fsteps", "phase_missing", "phis_short"]
 
 
+# --------------------------------------------------------------------------
+# presentations: the same numbers with another dtype / memory layout / container
+# --------------------------------------------------------------------------
+def signed_perm(rng):
+    """an exactly orthogonal integer matrix"""
+    p = np.eye(3)[rng.permutation(3)]
+    return p * rng.choice([-1.0, 1.0], size=3)[:, None]
+
+
+def f32(a):
+    return np.asarray(a, dtype=np.float32).astype(float)
+
+
+PRES_PLAN = [  # (what is presented, kind, how the numbers are chosen so that the presentation is exact)
+    ("tensors", k) for k in ("int64", "int32", "float32", "fortran", "strided", "reversed", "readonly")] + [
+    ("orientations", k) for k in ("int64", "int32", "float32", "fortran", "strided", "reversed", "readonly", "list")] + [
+    ("fractions", k) for k in ("int64", "int32", "float32", "strided", "reversed", "readonly", "list")] + [
+    ("phis", k) for k in ("tuple", "array", "float32", "int")] + [("minerals", "tuple"), ("assemblage", "tuple"),
+    ("all", "int64"), ("all", "float32"), ("all", "fortran")]
+
+
+def gen_pres_case(rng, what, kind):
+    """a valid case whose numbers are exactly representable in the presentation, + c['pres']"""
+    c = gen_case(rng, "valid")
+    ns = len(c["minerals"][0]["orientations"])
+    ng = min(c["minerals"][0]["n_grains"], 6)
+    integer = kind in G.PRES_INTEGER or kind == "int"
+    single = kind == "float32"
+    for m in c["minerals"]:
+        m["n_grains"] = ng
+        m["orientations"] = [o[:ng] for o in m["orientations"]]
+        m["fractions"] = [f[:ng] / f[:ng].sum() for f in m["fractions"]]
+    if what in ("tensors", "all"):
+        if integer:
+            c["tensors"] = [G.int_sym6(rng, 300) for _ in range(2)]        # generic (Haar) orientations stay float64
+        elif single:
+            c["tensors"] = [f32(t) for t in c["tensors"]]
+    if what in ("orientations", "all"):
+        for m in c["minerals"]:
+            if integer:
+                m["orientations"] = [np.array([signed_perm(rng) for _ in range(ng)]) for _ in range(ns)]
+            elif single:
+                m["orientations"] = [f32(o) for o in m["orientations"]]
+    if what in ("fractions", "all"):
+        for m in c["minerals"]:
+            if integer:
+                m["fractions"] = [rng.integers(0, 4, size=ng).astype(float) for _ in range(ns)]
+            elif single:
+                m["fractions"] = [f32(f) for f in m["fractions"]]
+    if what == "phis":
+        if kind == "int":
+            c["phis"] = np.array([float(v) for v in rng.integers(0, 3, size=len(c["phis"]))])
+        elif kind == "float32":
+            c["phis"] = f32(c["phis"])
+    keys = ("tensors", "orientations", "fractions") if what == "all" else (what,)
+    c["pres"] = {k: kind for k in keys}
+    c["kind"] = f"presentation:{what}:{kind}"
+    return c
+
+
+def gen_pres_cases(chk, tier):
+    rng = np.random.default_rng(chk.seed + 11)
+    reps = 1 if tier == "quick" else 12
+    return [gen_pres_case(rng, w, k) for _ in range(reps) for w, k in PRES_PLAN]
+
+
+def compare_pres(chk, cases):
+    """implementation on the presented objects vs the extracted model on the same numbers (1e-9; 1e-5 where float32
+    arithmetic is involved), or a loud refusal of an integer / list presentation (G.REFUSAL); never another value"""
+    mres = common.run_model([model_line(c) for c in cases], group=G.GROUP)
+    bad = []
+    hist = chk.cov.setdefault("presentation_histogram", {})
+    for c, m in zip(cases, mres):
+        what, kind = c["kind"].split(":")[1:]
+        try:
+            ms, asm, phis, st = build(c)
+            import pydrex.minerals as M
+            r = ("OK", np.asarray(M.voigt_averages(ms, asm, phis, st), dtype=float))
+        except Exception as e:  # noqa: BLE001
+            r = ("ERR", type(e).__name__, str(e)[:200])
+        chk.note_case(("voigt-presentation", c["kind"], model_line(c)), nontrivial=(r[0] == "OK"),
+                      sample={"kind": c["kind"], "impl": r[1] if r[0] == "ERR" else [float(v) for v in r[1].reshape(-1)[:3]]})
+        key = f"{what}:{kind}"
+        if r[0] == "ERR":
+            refused = r[1] in G.REFUSAL and (kind in G.PRES_INTEGER or kind in ("list", "int"))
+            hist[key] = "refused" if refused else "raised"
+            if not refused:
+                bad.append((c, f"{key}: raised {r[1]}: {r[2]}"))
+            continue
+        if m[0] != "OK":
+            bad.append((c, f"{key}: model {m[:2]}, implementation OK"))
+            continue
+        okc, idx = common.vec_close(list(r[1].reshape(-1)), m[1], rtol=1e-5 if kind == "float32" else 1e-9)
+        if okc:
+            hist.setdefault(key, "same value")
+        else:
+            hist[key] = "DIFFERENT VALUE"
+            bad.append((c, f"{key}: component {idx}: implementation {r[1].reshape(-1)[idx]!r} vs model on the same numbers {m[1][idx]!r}"))
+    chk.cov["presentation_cases"] = len(cases)
+    return bad
+
+
 def gen_cases(chk, tier):
     rng = np.random.default_rng(chk.seed)
     n = 260 if tier == "quick" else 3000      # ~0.2 s per case in the extracted model (rotate4 over lists)
@@ -438,6 +587,7 @@ def compare(chk, cases):
 def search(chk, extra=()):
     rng = np.random.default_rng(chk.seed + 1)
     pool = [c for c in extra] + [gen_seq(rng, SEQ_VARIANTS[k % len(SEQ_VARIANTS)]) for k in range(14)] \
+        + [gen_pres_case(rng, w, k) for w, k in PRES_PLAN] \
         + [gen_case(rng, KINDS[k % len(KINDS)]) for k in range(60)]
     found, seen = [], set()
     for c in pool:
@@ -454,7 +604,10 @@ def search(chk, extra=()):
 def run(chk):
     ok, br = proofs.prove(chk, FILES, PROP, groups=(G.GROUP,), gen_modules=("tensors",))
     chk.cov["trusted_base"] = common.TRUSTED_COMMON + [
-        "hand-written Model_voigt.voigt_averages (validation, triple loop, lookups: stiffness by phase ordinal, phase fraction by position in the assemblage); tied by this differential run",
+        "hand-written Model_voigt.voigt_averages (validation, triple loop, lookups: stiffness by phase ordinal, phase fraction by position in the assemblage); tied by this differential run "
+        "(all sizes) AND by tie T at small sizes: gen/Gen_voigt.v is regenerated from the real voigt_averages on every run (translator/specs_tensors_glue.py: real Mineral / StiffnessTensors objects "
+        "with symbolic contents, PhaseOrd = symbolic MineralPhase ordinal forking on its members, the real StiffnessTensors.__iter__, tensor kernels as calls of Gen_tensors; emit_coq plain_let_calls) "
+        "and Inst_voigt*.v equate its 25 configurations with the model",
         "the per-grain kernels are the generated Gen_tensors.k_voigt_to_elastic_tensor / k_elastic_tensor_to_voigt and rotate4, tied to the generated k_rotate by Inst_tensors.rotate4_is_k_rotate",
         "StiffnessTensors.__iter__ yields (olivine, enstatite) = phase-ordinal order (the harness passes the tensors in that order; checked by the differential run with distinct custom tensors)",
     ]
@@ -465,12 +618,17 @@ def run(chk):
                        "STATEFUL stream: StiffnessTensors instances living across calls -- one instance reused over [average, modify olivine and/or enstatite "
                        "(attribute assignment / in-place overwrite / in-place scaling), average, ...], a default instance customised before first use, a subclass "
                        "with overridden defaults (and a second instance of it), two instances with identical constants of which one is modified, the default "
-                       "elastic_tensors argument; every call vs the model evaluated on the constants the instance holds at that call")
+                       "elastic_tensors argument; every call vs the model evaluated on the constants the instance holds at that call; "
+                       "PRESENTATION stream: the same numbers with another dtype / layout / container -- stiffness attributes int64 / int32 / float32 / Fortran / strided / reversed / read-only "
+                       "(generic orientations), orientations int (signed permutations) / float32 / Fortran / strided / reversed / read-only / nested list, fractions int / float32 / strided / "
+                       "reversed / read-only / list, phase_fractions tuple / ndarray / np.float32 / int, minerals and assemblage as tuples, everything at once: same value as the model on the "
+                       "same numbers or a loud refusal")
     bad = []
     if br.drivers.get(G.GROUP, 1) is None:
         cases = gen_cases(chk, chk.tier)
         bad = compare(chk, cases)
         bad += compare_seqs(chk, gen_seqs(chk, chk.tier))
+        bad += compare_pres(chk, gen_pres_cases(chk, chk.tier))
         chk.cov["traces_validated_against_impl"] = len(cases) + chk.cov.get("stateful_calls", 0)
     chk.cov["disagreements"] = len(bad)
     if ok and not bad:
